@@ -58,7 +58,8 @@ def tie_case_summary(case):
             'pool': [list(t) for t in case['pool']],
             'surf_ids': case['surf_ids'], 'nck': case['nck'],
             'nsk': case['nsk'], 'do_trcl': case['do_trcl'],
-            'ifd': case['ifd'], 'ifg': case['ifg'], 'fault': case['fault']}
+            'ifd': case['ifd'], 'ifg': case['ifg'],
+            'inl': case.get('inl'), 'fault': case['fault']}
 
 
 def case_from_summary(data):
@@ -77,6 +78,7 @@ def case_from_summary(data):
     out = dict(data)
     out['cells'] = cells
     out['pool'] = [tuple(t) for t in data['pool']]
+    out['inl'] = tuple(data['inl']) if data.get('inl') else None
     return out
 
 
@@ -255,7 +257,10 @@ def run(res, tier, seed, proofs_ok):
         res.count('tie:fault:' + str(case['fault']))
         res.count('tie:outcome:' + (outcome[0] if outcome[0] == 'ok'
                                     else {1: 'KeyError',
-                                          2: 'RecursionError'}[outcome[1]]))
+                                          2: 'RecursionError',
+                                          3: 'TypeError'}[outcome[1]]))
+        res.count('tie:inline_cells:' + ('off' if case['inl'] is None else
+                                         f'{case["inl"][0]}/{case["inl"][1]}'))
         res.count(f'tie:inline_filled={case["ifd"]},'
                   f'inline_filling={case["ifg"]}')
         if outcome[0] == 'ok':
